@@ -570,8 +570,9 @@ func (t *ZeroAllocTokenizer) TokenizeHtmlPreserving() ([]Token, error) {
 
 // processBlockTag handles specialized block tag tokenization
 func (t *ZeroAllocTokenizer) processBlockTag(content string) {
-	// Extract the tag name
-	spacePos := strings.IndexByte(content, ' ')
+	// Extract the tag name: it ends at the first whitespace character (a tag
+	// may be written over several lines or with tabs)
+	spacePos := strings.IndexAny(content, " \t\r\n")
 	var blockName string
 	var blockContent string
 
@@ -829,7 +830,8 @@ func (t *ZeroAllocTokenizer) tokenizeTemplatePath(path string) {
 }
 
 // indexASCIIFold returns the index of the first occurrence of the lower-case
-// ASCII keyword in s, ignoring the case of ASCII letters. Unlike
+// ASCII keyword in s, ignoring the case of ASCII letters; a space in the
+// keyword matches any single whitespace character (space, tab, CR, LF). Unlike
 // strings.Index(strings.ToLower(s), keyword) the result is an offset into s
 // itself: ToLower changes the byte length of invalid UTF-8 and of some letters,
 // so its offsets do not fit the original string.
@@ -841,7 +843,12 @@ func indexASCIIFold(s, keyword string) int {
 			if c >= 'A' && c <= 'Z' {
 				c += 'a' - 'A'
 			}
-			if c != keyword[j] {
+			if keyword[j] == ' ' {
+				// a space in the keyword pattern stands for any whitespace character
+				if !isWhitespace(c) {
+					break
+				}
+			} else if c != keyword[j] {
 				break
 			}
 		}
